@@ -203,12 +203,65 @@ def surfaceLinkError (s : St) : Card → Option Cls
         | none => none
   | _ => none
 
-/-- material.py:Material.update_pointers (two MT inputs for one material),
-    thermal_scattering.py:ThermalScatteringLaw.update_pointers (MT without M) -/
-def dataLinkError (s : St) : Card → Option Cls
-  | .material n => if (s.data.filter (· == .thermal n)).length ≥ 2 then some .MalformedInputError else none
-  | .thermal n => if s.data.contains (.material n) then none else some .MalformedInputError
-  | _ => none
+/-! ### the loop over the data inputs, on a list that `Material.update_pointers` shortens
+
+`self._data_inputs` is one Python list.  `Material.update_pointers(data_inputs)` scans a copy of it and REMOVES every
+MT input it attaches from the list itself; `ThermalScatteringLaw.update_pointers` looks its material up in the list.
+The loop of `__update_internal_pointers` therefore runs over a list that changes under it — unless it iterates over a
+snapshot.  Both semantics are modelled; identities are the positions in the list handed over by the reading stage. -/
+
+/-- state of the loop: the live list (identity, card), the materials that hold a law, the errors, the inputs whose
+    `update_pointers` ran (in order) -/
+structure DSt where
+  live : List (Nat × Card)
+  hasLaw : List Nat := []
+  events : List (Region × Cls) := []
+  visited : List Nat := []
+  deriving DecidableEq, Repr
+
+/-- material.py:Material.update_pointers for the material with identity `mid` and number `n`:
+    `for input in list(data_inputs)` over the snapshot `snap`; attaches (and removes from the live list) the first MT
+    of its number, raises MalformedInputError at a second one (the scan ends there) -/
+def matScan (mid n : Nat) : List (Nat × Card) → DSt → DSt
+  | [], st => st
+  | (j, .thermal m) :: rest, st =>
+    if m == n then
+      if st.hasLaw.contains mid then
+        { st with events := st.events ++ [(Region.uipDataLoop, Cls.MalformedInputError)] }
+      else matScan mid n rest { st with hasLaw := st.hasLaw ++ [mid], live := st.live.filter (fun x => x.1 != j) }
+    else matScan mid n rest st
+  | _ :: rest, st => matScan mid n rest st
+
+/-- one pass of the loop body: `input.update_pointers(self._data_inputs)` inside the try of `uipDataLoop` -/
+def visit (st : DSt) (x : Nat × Card) : DSt :=
+  let st1 : DSt := { st with visited := st.visited ++ [x.1] }
+  match x.2 with
+  | .material n => matScan x.1 n st1.live st1
+  | .thermal n =>
+    -- thermal_scattering.py:ThermalScatteringLaw.update_pointers: MT without M
+    if st1.live.any (fun y => y.2 == .material n) then st1
+    else { st1 with events := st1.events ++ [(Region.uipDataLoop, Cls.MalformedInputError)] }
+  | _ => st1
+
+def indexed (data : List Card) : List (Nat × Card) := (List.range data.length).zip data
+
+/-- `for input in list(self._data_inputs):` — the loop runs over a snapshot -/
+def linkDataSnapshot (data : List Card) : DSt := (indexed data).foldl visit { live := indexed data }
+
+/-- `for input in self._data_inputs:` — Python's list iterator on the live list: position `i`, then `i+1`, until the
+    list (as it is then) is exhausted -/
+def linkDataLiveGo : Nat → Nat → DSt → DSt
+  | 0, _, st => st
+  | fuel + 1, i, st =>
+    match st.live[i]? with
+    | none => st
+    | some x => linkDataLiveGo fuel (i + 1) (visit st x)
+
+def linkDataLive (data : List Card) : DSt := linkDataLiveGo data.length 0 { live := indexed data }
+
+/-- the errors of the data loop as the code has it (snapshot: mcnp_problem.py iterates `list(self._data_inputs)`;
+    `Gen.Errors.probeDataLoop` records the behaviour of the working tree, obligation `C13_link_probe`) -/
+def dataLoopEvents (data : List Card) : List (Region × Cls) := (linkDataSnapshot data).events
 
 /-- cells.py:Cells.update_pointers, loop over the data inputs: a once-only input twice, and `merge` of a second
     data-block input of a class whose `merge` always raises (VOL, U, LAT, FILL; `cantRepeat`). -/
@@ -250,7 +303,7 @@ def linkEvents (s : St) : List (Region × Cls) :=
     ++ optEvents .cellsCellLoop (cellLinkError s) s.cells
     ++ blankModifierEvents s
     ++ optEvents .uipSurfaceLoop (surfaceLinkError s) s.surfaces
-    ++ optEvents .uipDataLoop (dataLinkError s) s.data
+    ++ dataLoopEvents s.data
 
 /-- `handle_error` over the events -/
 def linkRun (m : Mode) (s : St) : List (Region × Cls) → Result
